@@ -209,6 +209,15 @@ def run_check(pid, tier):
         for h in hits:
             obligations_broken.append(("forbidden construct", h))
         au = audit([m for m in modules if m not in failed]) if "<build>" not in failed else {}
+        rechecked = []
+        if tier == "thorough" and "<build>" not in failed:
+            # independent re-check of the compiled proofs (and of everything they import)
+            good = [m for m in modules if m not in failed]
+            r = subprocess.run(["lake", "env", "leanchecker"] + good, cwd=LEAN, capture_output=True, text=True)
+            if r.returncode != 0:
+                obligations_broken.append(("leanchecker", (r.stdout + r.stderr)[-1500:]))
+            else:
+                rechecked = good
     theorems = []
     for m in modules:
         lst = au.get(m)
@@ -323,6 +332,7 @@ def run_check(pid, tier):
             "checker_cmd": "cd lean && lake build " + " ".join(modules) + " && lake env lean --run Audit.lean " + " ".join(modules),
             "trusted_base": TRUSTED + P.get("trusted", []),
             "theorems": theorems,
+            "rechecked_with_leanchecker": rechecked,
             "evaluations": stats["evaluations"],
             "distinct_nontrivial": len(stats["distinct"]),
             "rule": P["rule"],
